@@ -196,6 +196,7 @@ def _trace(ctx, p, rng):
 def _inv(ctx, p, rng):
     D, P, n, pivot = p['D'], p['P'], p['n'], p['pivot']
     a = _mat_series(rng, D, P, n, pivot=pivot)
+    a = a * (10.0 ** float([0, 0, -12, 12, -170, 160][int(rng.integers(6))]))      # the inverse is representable although det(A) may not be
     cond = max(lin.cond2(a[0, pp]) for pp in range(P))
     if cond > 1e3:
         ctx.skip('out_of_domain:cond'); return
@@ -222,6 +223,8 @@ def _solve(ctx, p, rng):
         b[1:] = 0; b[0, 1:] = b[0, 0]
     if kinds == 'AU':
         a[1:] = 0; a[0, 1:] = a[0, 0]
+    sa = 10.0 ** float([0, 0, -12, 12, -150, 150][int(rng.integers(6))])
+    a = a * sa; b = b * (sa if rng.random() < 0.5 else 1.0)
     cond = max(lin.cond2(a[0, pp]) for pp in range(P))
     if cond > 1e3:
         ctx.skip('out_of_domain:cond'); return
@@ -271,6 +274,8 @@ def _det(ctx, p, rng, log=False):
                 a[:, pp, 0, :] *= -1          # the statement's logdet needs det > 0
         # determinants that over/underflow a double although log(det) is harmless
         a = a * (10.0 ** float([0, 0, -90, 90, -40][int(rng.integers(5))]))
+    else:
+        a = a * (10.0 ** float([0, 0, -12, 8, -40, 30][int(rng.integers(6))]))          # det scales like s^n (n <= 5): representable, far from 1
     cond = max(lin.cond2(a[0, pp]) for pp in range(P))
     if cond > 1e3:
         ctx.skip('out_of_domain:cond'); return
